@@ -23,6 +23,9 @@ type kind struct {
 	encode  func(obj interface{}) ([]byte, error)
 	empty   func(obj interface{}) bool
 	rules   func(obj interface{}, input []byte) []string
+	// reload restores b into an object that already holds valid material (a process that keeps one live
+	// configuration and reloads it from its store); nil: the codec has no in-place form
+	reload  func(obj interface{}, b []byte) error
 	costly  bool // restore validates primes (milliseconds)
 	wrapped bool // the encoding is a byte string around another kind's encoding: light catalogue in the quick tier
 }
@@ -55,6 +58,7 @@ func init() {
 			}
 			return c, nil
 		},
+		reload: func(o interface{}, b []byte) error { return cbor.Unmarshal(b, o.(*frost.Config)) },
 		encode: func(o interface{}) ([]byte, error) { return cbor.Marshal(o.(*frost.Config)) },
 		empty: func(o interface{}) bool {
 			c := o.(*frost.Config)
@@ -72,6 +76,7 @@ func init() {
 			}
 			return c, nil
 		},
+		reload: func(o interface{}, b []byte) error { return cbor.Unmarshal(b, o.(*frost.TaprootConfig)) },
 		encode: func(o interface{}) ([]byte, error) { return cbor.Marshal(o.(*frost.TaprootConfig)) },
 		empty: func(o interface{}) bool {
 			c := o.(*frost.TaprootConfig)
@@ -88,6 +93,7 @@ func init() {
 			}
 			return c, nil
 		},
+		reload: func(o interface{}, b []byte) error { return cbor.Unmarshal(b, o.(*doerner.ConfigReceiver)) },
 		encode: func(o interface{}) ([]byte, error) { return cbor.Marshal(o.(*doerner.ConfigReceiver)) },
 		empty: func(o interface{}) bool {
 			c := o.(*doerner.ConfigReceiver)
@@ -104,6 +110,7 @@ func init() {
 			}
 			return c, nil
 		},
+		reload: func(o interface{}, b []byte) error { return cbor.Unmarshal(b, o.(*doerner.ConfigSender)) },
 		encode: func(o interface{}) ([]byte, error) { return cbor.Marshal(o.(*doerner.ConfigSender)) },
 		empty: func(o interface{}) bool {
 			c := o.(*doerner.ConfigSender)
@@ -124,6 +131,7 @@ func init() {
 			}
 			return c, nil
 		},
+		reload: func(o interface{}, b []byte) error { return o.(*cmp.Config).UnmarshalBinary(b) },
 		encode: func(o interface{}) ([]byte, error) { return o.(*cmp.Config).MarshalBinary() },
 		empty:  cmpEmpty,
 		rules:  func(o interface{}, in []byte) []string { return cmpRules(o.(*cmp.Config), in) },
@@ -160,6 +168,12 @@ func init() {
 				return nil, err
 			}
 			return p, nil
+		},
+		reload: func(o interface{}, b []byte) error {
+			if err := cbor.Unmarshal(b, o.(*ecdsa.PreSignature)); err != nil {
+				return err
+			}
+			return o.(*ecdsa.PreSignature).Validate()
 		},
 		encode: func(o interface{}) ([]byte, error) { return cbor.Marshal(o.(*ecdsa.PreSignature)) },
 		empty: func(o interface{}) bool {
